@@ -40,6 +40,9 @@ type c10Scenario struct {
 	// this scenario never answers any of it (no capability list, no welcome): lines sent meanwhile are
 	// charged and held back like any other
 	CapNeg bool      `json:"cap_negotiation,omitempty"`
+	// PassLen > 0: the client has a connection password of this many bytes, so registration starts with a
+	// PASS line that is charged for its real length like any other line
+	PassLen int `json:"pass_len,omitempty"`
 	Lines  []c10Line `json:"lines"`
 
 	createdLo, createdHi time.Time // set by the run: when the client (and with it the penalty clock) was created
@@ -74,6 +77,14 @@ func genC10(t *rapid.T, maxLines int, idx int) *c10Scenario {
 		// be held back for its 5.36 s although the server has not welcomed the client yet
 		sc.CapNeg = true
 		sc.Lines = []c10Line{{Len: 400}, {Len: 400}, {Len: 1}}
+		return sc
+	}
+	if idx%12 == 7 {
+		// PASS with a 400-byte password (5.38 s), NICK, USER: 9.6 s; a 120-byte line (3.0 s) takes the penalty
+		// past 10 s and must be held back for its own 3 s; the line after it as well
+		sc.CapNeg = false
+		sc.PassLen = 400
+		sc.Lines = []c10Line{{Len: 120}, {Len: 1}}
 		return sc
 	}
 	if idx%12 == 8 {
@@ -121,10 +132,16 @@ func genC10(t *rapid.T, maxLines int, idx int) *c10Scenario {
 // runC10One executes one scenario and returns the observations for all lines
 // on the wire (registration lines included) in wire order.
 func runC10One(sc *c10Scenario) ([]c10Obs, *Violation) {
-	tc := newTestClient(cliOpts{Flood: sc.FloodOff, Configure: func(cfg *client.Config) { cfg.EnableCapabilityNegotiation = sc.CapNeg }})
+	tc := newTestClient(cliOpts{Flood: sc.FloodOff, Configure: func(cfg *client.Config) {
+		cfg.EnableCapabilityNegotiation = sc.CapNeg
+		cfg.Pass = strings.Repeat("w", sc.PassLen)
+	}})
 	nreg := 2
 	if sc.CapNeg {
-		nreg = 3
+		nreg++
+	}
+	if sc.PassLen > 0 {
+		nreg++
 	}
 	sc.createdLo, sc.createdHi = tc.CreatedLo, tc.CreatedHi
 	defer tc.shutdown()
